@@ -47,10 +47,11 @@ theorem digitsAux_decimal : ∀ (fuel n : Nat), n < fuel → isDecimal n (digits
       have e : n % 10 = n := Nat.mod_eq_of_lt h10
       rw [e]
       refine ⟨⟨by simp, ?_, ?_, ?_⟩, ?_⟩
-      · intro b hb; simp at hb; subst hb; exact digit_isDigit n h10
-      · simp [decVal, digit_toNat n h10]
-      · intro hh; simp at hh; simp [hh]
-      · intro hh; simp at hh; exact (digit_zero n h10).mp hh
+      · intro b hb; rw [List.mem_singleton] at hb; subst hb; exact digit_isDigit n h10
+      · show 0 * 10 + ((UInt8.ofNat (48 + n)).toNat - 48) = n
+        rw [digit_toNat n h10]; omega
+      · intro hh; simp only [List.head?_cons, Option.some.injEq] at hh; rw [hh]
+      · intro hh; simp only [List.head?_cons, Option.some.injEq] at hh; exact (digit_zero n h10).mp hh
     · rename_i h10
       have hlt : n / 10 < fuel := by omega
       obtain ⟨⟨i1, i2, i3, i4⟩, i5⟩ := digitsAux_decimal fuel (n / 10) hlt
@@ -64,7 +65,7 @@ theorem digitsAux_decimal : ∀ (fuel n : Nat), n < fuel → isDecimal n (digits
       · intro b hb
         rcases List.mem_append.mp hb with hb | hb
         · exact i2 b hb
-        · simp at hb; subst hb; exact digit_isDigit _ hm
+        · rw [List.mem_singleton] at hb; subst hb; exact digit_isDigit _ hm
       · rw [decVal_snoc, i3, digit_toNat _ hm]; omega
       · rw [hhead]; intro hh; exact absurd (i5 hh) hne
       · rw [hhead]; intro hh; exact absurd (i5 hh) hne
@@ -92,9 +93,9 @@ theorem datetimeTai_fields (t : Nat) :
     rw [hd] at b
     have h0 : (0 : Int) ≤ (t : Int) / 86400 := by omega
     have := daysBeforeYear_1970
-    rcases Int.lt_or_ge (tai t).year 1970 with hlt | hge
+    by_cases hlt : (tai t).year < 1970
     · have := daysBeforeYear_mono ((tai t).year + 1) 1970 (by omega); omega
-    · exact hge
+    · omega
   have e1 : (datetimeTai t).hour = (tai t).hour.toNat := rfl
   have e2 : (datetimeTai t).min = (tai t).min.toNat := rfl
   have e3 : (datetimeTai t).sec = (tai t).sec.toNat := rfl
@@ -127,7 +128,7 @@ theorem months_len (m : Nat) (h : m < 12) : (months.getD m []).length = 3 := by
   exact h2 m h
 
 /-- **date822fmt writes "D Mon YYYY HH:MM:SS -0000\n"** -/
-theorem date822_format (dt : DT) (hh : dt.hour < 24) (hm : dt.min < 60) (hs : dt.sec < 60) :
+theorem date822_format (dt : Received.DT) (hh : dt.hour < 24) (hm : dt.min < 60) (hs : dt.sec < 60) :
     ∃ D Y : Bytes, isDecimal dt.mday D ∧ isDecimal dt.year Y ∧
       date822 dt = D ++ [SP] ++ months.getD dt.mon [] ++ [SP] ++ Y ++ [SP] ++
         two dt.hour ++ [58] ++ two dt.min ++ [58] ++ two dt.sec ++ [SP, 45, 48, 48, 48, 48, LF] := by
